@@ -6,7 +6,9 @@
 use crate::{same, Rng, Src, E};
 use rrtk::streams::math::{ProductStream, SumStream};
 use rrtk::*;
-/// per-input outcome code: 0 absent, 1 present, 2 Err(1), 3 Err(2)
+/// per-input outcome code: 0 absent, 1 present, 2 Err(1), 3 Err(2), 4 present on the first poll and absent on
+/// any later poll (a read-once input: the stream must poll every input once per get(), or at least not
+/// trust a count taken in an earlier pass), 5 = Error::FromNone
 pub fn digits(mut code: u64, n: usize, base: u64) -> Vec<u8> {
     let mut v = Vec::with_capacity(n);
     for _ in 0..n {
@@ -21,7 +23,9 @@ fn feed<T: Clone + 'static>(srcs: &[Src<T>], pat: &[u8], vals: &[(i64, T)]) {
             0 => s.none(),
             1 => s.some(vals[i].0, vals[i].1.clone()),
             2 => s.err(1),
-            _ => s.err(2),
+            3 => s.err(2),
+            4 => s.set_once(Ok(Some(Datum::new(Time(vals[i].0), vals[i].1.clone()))), Ok(None)),
+            _ => s.err(0),
         }
     }
 }
@@ -31,9 +35,10 @@ fn model(pat: &[u8]) -> Result<Vec<usize>, u8> {
     for (i, p) in pat.iter().enumerate() {
         match p {
             0 => {}
-            1 => present.push(i),
+            1 | 4 => present.push(i),
             2 => return Err(1),
-            _ => return Err(2),
+            3 => return Err(2),
+            _ => return Err(0),
         }
     }
     Ok(present)
@@ -45,7 +50,7 @@ pub fn check_f32<const N: usize>(pat: &[u8], rng: &mut Rng, product: bool) -> Re
     let refs: [Reference<dyn Getter<f32, E>>; N] = core::array::from_fn(|i| srcs[i].dynref());
     let got = if product { ProductStream::new(refs).get() } else { SumStream::new(refs).get() };
     match (model(pat), got) {
-        (Err(c), Err(Error::Other(g))) if c == g => Ok(()),
+        (Err(c), Err(g)) if crate::err_code(c) == g => Ok(()),
         (Ok(p), Ok(None)) if p.is_empty() => Ok(()),
         (Ok(p), Ok(Some(d))) if !p.is_empty() => {
             let mut v = vals[p[0]].1;
@@ -68,7 +73,7 @@ pub fn check_quantity<const N: usize>(pat: &[u8], rng: &mut Rng, product: bool) 
     let refs: [Reference<dyn Getter<Quantity, E>>; N] = core::array::from_fn(|i| srcs[i].dynref());
     let got = if product { ProductStream::new(refs).get() } else { SumStream::new(refs).get() };
     match (model(pat), got) {
-        (Err(c), Err(Error::Other(g))) if c == g => Ok(()),
+        (Err(c), Err(g)) if crate::err_code(c) == g => Ok(()),
         (Ok(p), Ok(None)) if p.is_empty() => Ok(()),
         (Ok(p), Ok(Some(d))) if !p.is_empty() => {
             let mut v = vals[p[0]].1;
